@@ -43,6 +43,9 @@ type rtransport struct {
 	once    sync.Once
 	written int64
 	feed    chan []byte
+	failAt  int64 // the failAt-th Writev fails (0: never): the sender goes idle with packets still queued
+	writevs int64
+	slow    bool // Writev takes a moment, so that writers pile up behind a full queue
 }
 
 func newTransport() *rtransport {
@@ -70,6 +73,12 @@ func (t *rtransport) Writev(bs transport.Buffers) (int64, error) {
 	case <-t.closed:
 		return 0, errClosed
 	default:
+	}
+	if t.slow {
+		time.Sleep(20 * time.Microsecond)
+	}
+	if k := atomic.AddInt64(&t.writevs, 1); t.failAt > 0 && k == t.failAt {
+		return 0, errors.New("mock: write failed")
 	}
 	var n int64
 	for _, b := range bs {
@@ -175,6 +184,10 @@ func groupChannel(rng *hx.Rng, iters int, async bool) (ops map[string]int) {
 		tr := newTransport()
 		var ch netty.Channel
 		if async {
+			if rng.Chance(40) {
+				tr.failAt = int64(1 + rng.Intn(3))
+				tr.slow = true
+			}
 			ch = netty.NewAsyncWriteChannel(1+rng.Intn(4), rng.Bool())(int64(it), context.Background(), pl, tr, netty.AsyncExecutor())
 		} else {
 			ch = netty.NewChannel()(int64(it), context.Background(), pl, tr, netty.AsyncExecutor())
@@ -183,10 +196,15 @@ func groupChannel(rng *hx.Rng, iters int, async bool) (ops map[string]int) {
 		var fns []func()
 		var names []string
 		add := func(n string, f func()) { fns = append(fns, f); names = append(names, n) }
-		for k, n := 0, 2+rng.Intn(4); k < n; k++ {
+		nops := 2 + rng.Intn(4)
+		if tr.failAt > 0 {
+			nops += 3
+			names = append(names, "failing-transport")
+		}
+		for k, n := 0, nops; k < n; k++ {
 			switch rng.Intn(9) {
 			case 0:
-				add("Write", func() { ch.Write([]byte("abc")) })
+				add("Write", func() { ch.Write([]byte("abc")); ch.Write([]byte("def")) })
 			case 1:
 				add("Write1", func() { ch.Write1([]byte("abcd")) })
 			case 2:
